@@ -163,6 +163,7 @@ def main() -> int:
     theorems = []
     forbidden = []
     rechecked = None
+    triage = None  # {"modules_ok", "modules_broken_theorems", "broken": {obligation: [kind prefixes] | None}}
     if not args.no_build:
         ok, log = C.run_translate()
         if not ok:
@@ -178,33 +179,51 @@ def main() -> int:
                 proof_broken = "lake build failed:\n" + "\n".join(
                     l for l in log.splitlines() if not l.startswith("✔") and "Built" not in l
                 )[-4000:]
+                # additive hook (C17/F10): a property module may attribute the build errors to named
+                # proof obligations ("known broken obligations", see the end of main); the modules that
+                # did build are still audited
+                if hasattr(P, "triage_build"):
+                    try:
+                        triage = P.triage_build(log)
+                    except Exception:
+                        traceback.print_exc()
+                        triage = None
                 # the driver may still be buildable on its own (model unchanged, theorem broken)
                 if driver_name:
                     try:
                         C.lake_build([driver_name])
                     except Exception:
                         pass
-        if proof_broken is None:
-            for m in lean_modules:
+        audit_modules = lean_modules if proof_broken is None else list((triage or {}).get("modules_ok", []))
+
+        def _broken(msg):
+            # with a triaged build failure the build text is kept and the new problem is unexplained
+            if triage is not None and proof_broken is not None:
+                triage["broken"][msg[:120]] = None
+                return proof_broken + "\n" + msg
+            return msg
+
+        if proof_broken is None or audit_modules:
+            for m in audit_modules:
                 theorems.extend(C.theorems_in(m))
             req = list(getattr(P, "REQUIRED_THEOREMS", []))
-            missing = [t for t in req if t not in theorems]
+            missing = [t for t in req if t not in theorems and t not in (triage or {}).get("modules_broken_theorems", [])]
             if missing:
-                proof_broken = f"required property theorems are no longer stated: {missing}"
+                proof_broken = _broken(f"required property theorems are no longer stated: {missing}")
             try:
-                axioms, alog = C.audit_axioms(pid, lean_modules, theorems)
+                axioms, alog = C.audit_axioms(pid, audit_modules, theorems)
             except Exception as e:
                 print("ERROR: axiom audit could not run:", e)
                 return 2
             bad = {t: a for t, a in axioms.items() if not set(a) <= C.ALLOWED_AXIOMS}
             unseen = [t for t in theorems if t not in axioms]
             if bad:
-                proof_broken = f"theorems depend on non-standard axioms: {bad}"
+                proof_broken = _broken(f"theorems depend on non-standard axioms: {bad}")
             elif unseen:
-                proof_broken = f"axiom audit did not report on {unseen}:\n{alog[-2000:]}"
+                proof_broken = _broken(f"axiom audit did not report on {unseen}:\n{alog[-2000:]}")
             forbidden = C.grep_forbidden()
             if forbidden:
-                proof_broken = f"forbidden tokens in Lean sources: {forbidden}"
+                proof_broken = _broken(f"forbidden tokens in Lean sources: {forbidden}")
             if tier == "thorough" and proof_broken is None and lean_modules:
                 # independent re-check of the compiled property modules by leanchecker
                 try:
@@ -293,6 +312,17 @@ def main() -> int:
             replay_paths.append(path)
             print(f"VIOLATION property={pid} replay={path}")
         exit_code = 1
+    elif proof_broken and not disagreements and triage and triage.get("broken") and all(
+            kinds and any(f["kind"].startswith(pref) for (_k, _r, f) in known_hits.values() for pref in kinds)
+            for kinds in triage["broken"].values()):
+        # "known broken obligations": every proof obligation that no longer builds is a data obligation
+        # whose failing input was found on the implementation in THIS run and is a listed open finding;
+        # nothing else is broken (any other broken theorem, or a failing input of another kind, lands in
+        # the branches above/below).  Reported, not counted.
+        for ob in sorted(triage["broken"]):
+            print(f"KNOWN-FINDING: property={pid} proof obligation {ob} does not hold on this tree "
+                  f"(explained by open finding(s) {sorted(known_hits)})")
+        notes.append(f"known broken obligations: {sorted(triage['broken'])}")
     elif proof_broken or disagreements:
         what = {"kind": "proof_or_correspondence_broken"}
         payload = {"property": pid, "what": what, "case": None,
@@ -314,7 +344,7 @@ def main() -> int:
             nontriv[C.case_hash(r["case"])] = True
         for ft in r["features"]:
             feats[ft] = feats.get(ft, 0) + 1
-    discharged = 0 if proof_broken else len([t for t in theorems if t in axioms])
+    discharged = len([t for t in theorems if t in axioms]) if (not proof_broken or (triage and exit_code == 0)) else 0
     sample_thms = [{"theorem": t, "axioms": axioms.get(t)} for t in theorems[:6]]
     sample_cases = [{"case": r["case"], "obs": r["obs"]} for r in records[n_corpus:n_corpus + 2]] or [{"case": r["case"]} for r in records[:2]]
     ev = {
@@ -323,7 +353,7 @@ def main() -> int:
         "seed": seed,
         "level": "proof",
         "coverage": {
-            "obligations": max(len(theorems), 1),
+            "obligations": max(len(theorems) + len((triage or {}).get("modules_broken_theorems", [])), 1),
             "discharged": discharged,
             "checker_cmd": f"cd lean && lake build {' '.join(lean_modules)} && lake env lean .lake/audit/{pid}.lean  (#print axioms)",
             "trusted_base": list(getattr(P, "TRUSTED", [])) + [
